@@ -299,6 +299,7 @@ func (w *vfWorld) prepareStep(st vfStep) *vfPrepared {
 		switch st.B {
 		case "basic":
 			r.Basic = &[2]string{st.User, pw}
+			r.Form = url.Values{}
 		case "html":
 			r.Header["Accept"] = "text/html"
 			r.Form = url.Values{"username": {st.User}, "password": {pw}}
@@ -370,6 +371,7 @@ func (w *vfWorld) prepareStep(st vfStep) *vfPrepared {
 			if resp.Code == 200 && path == "/api/v0/TOTPAuth" && valid {
 				f.UsedTOTP[code] = true
 				f.lastAccepted = code
+				f.lastAcceptedStep = time.Now().Unix()/30 + 1
 			}
 		}
 	case "vipotp":
